@@ -449,6 +449,16 @@ def _discard_warning(*args, **kwargs):
     return None
 
 
+def _set_numpy_print_environment(trace):
+    """Global print options of numpy are application state too: nothing that is written may depend on them."""
+    import numpy as np
+
+    saved = np.get_printoptions()
+    if trace.get("npprint"):
+        np.set_printoptions(precision=3, suppress=True, threshold=5, edgeitems=1, linewidth=40)
+    return saved
+
+
 def _set_warning_environment(trace):
     """The application's warning configuration is part of the environment, not of the arguments: 'ignore' (nothing is
     recorded or re-issued by the API wrappers) or 'always' (every warning is shown; here: discarded by the sink)."""
@@ -483,6 +493,7 @@ def run_history(trace, refs, stats=None):
     disk.declare_missing("results")
     wst = _save_warn_state()
     _set_warning_environment(trace)
+    npsaved = _set_numpy_print_environment(trace)
     recs = []
     table_reported = False
     mem = seams.MemPoison(trace.get("mem"))
@@ -508,6 +519,9 @@ def run_history(trace, refs, stats=None):
                     table_reported = True
                     out.append(_v("module_table_changed", f"after call #{k} {_call_name(call)}: {'; '.join(ch[:3])}",
                                   {**trace, "calls": calls[: k + 1]}, ch[0].split(":")[0].split("[")[0]))
+    import numpy as _np
+
+    _np.set_printoptions(**npsaved)
     if disk.open_handles():
         out.append(_v("handle_leak", f"{len(disk.open_handles())} handles open after the history", trace))
     if _GUARD.changed():
@@ -550,6 +564,7 @@ def run_threads(trace, refs, rng=None, stats=None):
 
     wst = _save_warn_state()
     _set_warning_environment(trace)
+    npsaved = _set_numpy_print_environment(trace)
     budget = _budget([c for cl in clients for c in cl])
     try:
         with seams.Installed(disk), seams.MemPoison(trace.get("mem")) as mem, sched.Steps(budget=budget, sched=baton) as st:
@@ -557,6 +572,10 @@ def run_threads(trace, refs, rng=None, stats=None):
     except sched.SchedulerStall as exc:
         _restore_warn_state(wst)
         return [_v("stall_under_interleaving", str(exc), trace, "stall")], results, baton, 0
+    finally:
+        import numpy as _np
+
+        _np.set_printoptions(**npsaved)
     warn_left = _restore_warn_state(wst)
     for c in done:
         if isinstance(c.error, sched.StepBudgetExceeded):
@@ -769,6 +788,7 @@ def run_task(task):
     trace["wfilter"] = task.get("wfilter") or erng.choice(["ignore", "always", "always"])
     if trace["mode"] == "history":
         trace["flat"] = erng.random() < 0.5
+    trace["npprint"] = erng.random() < 0.3
     if trace["mode"] == "history":
         viols, recs, steps = run_history(trace, REFS, stats)
         stats.inc("outcome.history_runs")
